@@ -650,4 +650,10 @@ def run(ctx, report: Report) -> None:
     from .e2etab import escape_roundtrip_table
     escape_roundtrip_table(ctx, r7)
 
+    # ---- R8 (the whole pipeline by interpretation, bounded) --------------------------------------------------------------
+    r8 = report.rule('C10-R8', 'selectors built with escape() select exactly the carriers of the string (whole pipeline; bounded)', floor=1)
+    from .e2ematch import escape_selects_table
+    escape_selects_table(ctx, r8)
+
+
 
